@@ -137,6 +137,19 @@ class StateVector(np.ndarray):
 
         return new_obj
 
+    def __deepcopy__(self, memo):
+        """For :py:func:`copy.deepcopy`. :py:meth:`numpy.ndarray.__deepcopy__` only
+        duplicates the buffer, ``__array_finalize__`` then hands over a shallow copy
+        of the additional fields (same covariance, maneuver list, containers)
+        """
+        new = self.copy()
+        # copy() keeps the maneuver objects (see above): duplicate them as well,
+        # including those of the state kept by the covariance
+        for obj in [new] if new.cov is None else [new, new.cov.orb]:
+            if "maneuvers" in obj._data:
+                obj._data["maneuvers"] = deepcopy(obj._data["maneuvers"], memo)
+        return new
+
     def __getattr__(self, name):
 
         name = Form.alt.get(name, name)
